@@ -224,7 +224,7 @@ def corr_inner(check, ctx, c, rng):
             _, _, b, final = case
             got = py_pdec(tok, b, bool(final))
             ctx.case(key=('pdec', tok, b, final), nontrivial=(got == 'RAISE' or not got.endswith(' %d %s' % (len(b), tok))),
-                     kind='inner-pdec:' + tok, sample={'codec': CODECS[tok], 'bytes': b.hex(), 'final': final, 'cpython': got})
+                     kind='inner-pdec', sample={'codec': CODECS[tok], 'bytes': b.hex(), 'final': final, 'cpython': got})
             where = {'codec': CODECS[tok], 'bytes': b.hex(), 'final': bool(final)}
         elif kind == 'idec':
             _, _, parts, cuts = case
@@ -234,7 +234,175 @@ def corr_inner(check, ctx, c, rng):
         else:
             _, _, parts, cuts = case
             got = py_ienc(tok, parts)
-            ctx.case(key=('ienc', tok, tuple(parts)), nontrivial=len(parts) > 1, kind='inner-ienc:' + tok)
+            ctx.case(key=('ienc', tok, tuple(parts)), nontrivial=len(parts) > 1, kind='inner-ienc')
             where = {'codec': CODECS[tok], 'chunks': [[ord(ch) for ch in p] for p in parts]}
         if m is not None and norm(m) != norm(got):
             ctx.disagree('CPython inner codec (%s)' % kind, where, got, m)
+
+
+# ---------------------------------------------------------------------------------------------------
+# the CSS codec (codec.py) over the concrete inner codecs: model `step cpyInner` / `estep cpyInnerEnc`
+MODEL_NAMES = ['utf-8', 'utf-8-sig', 'utf-16', 'utf-16-le', 'utf-16-be', 'utf-32', 'utf-32-le', 'utf-32-be',
+               'latin-1', 'ascii', 'UTF_8', 'Latin1', 'iso-8859-1', 'utf8', 'UTF-16LE']
+PREFIX = '@charset "'
+FINDING = 'C07-inner-stateless-vs-incremental'
+
+
+def norm_name(n):
+    return n.replace('_', '-').lower()
+
+
+def outside_agree(name, data):
+    """region of the known finding: data on which CPython's stateless and incremental decoder of `name` differ
+    (mirror of `Agree` in Lemmas/CodecAgree.lean)"""
+    n = norm_name(name)
+    if n == 'utf-8-sig':
+        return data in (b'\xef', b'\xef\xbb')
+    if n in ('utf-16', 'utf-32'):
+        w = 2 if n == 'utf-16' else 4
+        boms = (codecs.BOM_UTF16_LE, codecs.BOM_UTF16_BE) if w == 2 else (codecs.BOM_UTF32_LE, codecs.BOM_UTF32_BE)
+        if not data or data[:w] in boms:
+            return False
+        try:
+            data.decode(n + '-le')
+        except UnicodeError:
+            return False
+        return True
+    return False
+
+
+def used_encoding(c, data, given, force):
+    """the encoding one-shot decode ends up with (codec.py decode)"""
+    if given is None or not force:
+        e, explicit = c.detectencoding_str(data, True)
+        if (explicit and not force) or given is None:
+            return e
+    return given
+
+
+def css_text(rng):
+    body = ''.join(rng.choice(['a', '{', '}', ' ', 'é', '€', '"', '@', 'x:y', '\n', '\U0001F600', 'ü', ';', '\x00',
+                               '﻿', '￿']) for _ in range(rng.randint(0, 7)))
+    r = rng.random()
+    if r < 0.55:
+        name = rng.choice(MODEL_NAMES + ['x', ''])
+        return PREFIX + name + rng.choice(['";', '"', '"; ']) + body
+    if r < 0.7:
+        return PREFIX[:rng.randint(0, 10)] + body
+    return body
+
+
+def corr_css_concrete(check, ctx, c, rng):
+    lines, cases = [], []
+    for _ in range(ctx.n(700, 16000)):
+        text = css_text(rng)
+        e = rng.choice(MODEL_NAMES[:10])
+        try:
+            data = text.encode(e) if rng.random() < 0.8 else codecs.getencoder('css')(text, encoding=e)[0]
+        except (UnicodeEncodeError, LookupError):
+            continue
+        if rng.random() < 0.12:
+            data = damage(rng, data)
+        given = rng.choice([None, None, e, e, rng.choice(MODEL_NAMES)])
+        force = rng.random() < 0.6
+        n = len(data)
+        cutsets = [(), tuple(sorted(set(rng.randint(0, n) for _ in range(rng.randint(1, 5)))))]
+        if n:
+            cutsets.append((rng.randint(1, min(n, 14)),))
+            cutsets.append(tuple(range(1, n)))          # one byte at a time
+        for cuts in cutsets:
+            parts = cut(data, cuts)
+            lines.append('cdec %s %d %s' % ('none' if given is None else enc(given), force,
+                                            ' '.join(encb(p) for p in parts)))
+            cases.append(('cdec', parts, given, force, text))
+    for _ in range(ctx.n(500, 12000)):
+        text = css_text(rng)
+        if rng.random() < 0.1:
+            text += chr(rng.choice(SURR))
+        given = rng.choice([None, None] + MODEL_NAMES)
+        n = len(text)
+        cutsets = [(), tuple(sorted(set(rng.randint(0, n) for _ in range(rng.randint(1, 5)))))]
+        if n:
+            cutsets.append(tuple(range(1, n)))
+        for cuts in cutsets:
+            parts = cut(text, cuts)
+            lines.append('cenc %s %s' % ('none' if given is None else enc(given), ' '.join(enc(p) for p in parts)))
+            cases.append(('cenc', parts, given, None, text))
+    out = ctx.driver(lines) if ctx.model_ok else [None] * len(lines)
+    for (kind, parts, given, force, text), m in zip(cases, out):
+        if kind == 'cdec':
+            data = b''.join(parts)
+            w = {'call': 'IncrementalDecoder', 'chunks': [p.hex() for p in parts], 'encoding': given, 'force': force}
+            try:
+                name = used_encoding(c, data, given, force)
+                codecs.lookup(name)
+                if norm_name(name) not in [norm_name(x) for x in MODEL_NAMES]:
+                    raise LookupError(name)
+            except (LookupError, ValueError, TypeError):
+                ctx.count('cdec:encoding name outside the model (skipped)')
+                continue
+            try:
+                one = codecs.getdecoder('css')(data, encoding=given, force=force)[0]
+            except UnicodeError:
+                one = None
+            d = c.IncrementalDecoder(encoding=given, force=force)
+            outs, raised = [], False
+            try:
+                for p in parts:
+                    outs.append(d.decode(p, False))
+                fin = d.decode(b'', True)
+            except UnicodeError:
+                raised = True
+            region = outside_agree(name, data)
+            ctx.case(key=('cdec', tuple(parts), given, force), nontrivial=len(parts) > 1,
+                     kind='css-cdec:' + norm_name(name) + (':raises' if one is None else ''),
+                     sample={'chunks': [p.hex() for p in parts], 'encoding': given, 'force': force, 'one_shot': one})
+            got_total = None if raised else ''.join(outs) + fin
+            if got_total != one:
+                ctx.violate('incremental decoder = one-shot for every chunking (errors included)', w,
+                            {'incremental': 'raises' if raised else got_total,
+                             'one_shot': 'raises' if one is None else one, 'encoding_used': name},
+                            known=FINDING if region else None)
+                continue
+            if raised or region:
+                continue            # the model has no exception value at this level (see inner_decoder_chunking)
+            got = '%s | %s | %s' % (' '.join(enc(o) for o in outs), enc(fin), enc(one))
+            if m is not None and norm(m) != norm(got):
+                ctx.disagree('IncrementalDecoder over CPython inner codecs', w, got, m)
+        else:
+            w = {'call': 'IncrementalEncoder', 'chunks': parts, 'encoding': given}
+            try:
+                one = codecs.getencoder('css')(text, encoding=given)[0]
+            except UnicodeError:
+                one = None
+            except LookupError:
+                ctx.count('cenc:encoding name outside the model (skipped)')
+                continue
+            e = c.IncrementalEncoder(encoding=given)
+            outs, raised = [], False
+            try:
+                for p in parts:
+                    outs.append(e.encode(p, False))
+                fin = e.encode('', True)
+            except UnicodeError:
+                raised = True
+            except LookupError:
+                ctx.count('cenc:encoding name outside the model (skipped)')
+                continue
+            used = e.encoding
+            if used is None or norm_name(used) not in [norm_name(x) for x in MODEL_NAMES]:
+                ctx.count('cenc:encoding name outside the model (skipped)')
+                continue
+            ctx.case(key=('cenc', tuple(parts), given), nontrivial=len(parts) > 1,
+                     kind='css-cenc' + (':raises' if one is None else ''))
+            got_total = None if raised else b''.join(x for x in outs + [fin] if x)
+            if got_total != one:
+                ctx.violate('incremental encoder = one-shot for every chunking (errors included)', w,
+                            {'incremental': 'raises' if raised else got_total.hex(),
+                             'one_shot': 'raises' if one is None else one.hex()})
+                continue
+            if raised:
+                continue
+            got = '%s | %s | %s' % (' '.join(encb(o) if o else '-' for o in outs), encb(fin) if fin else '-', encb(one))
+            if m is not None and norm(m) != norm(got):
+                ctx.disagree('IncrementalEncoder over CPython inner codecs', w, got, m)
